@@ -77,6 +77,15 @@ def _points(fn):
             pts.append(('const', i, None))
         if isinstance(n, ast.BinOp) and isinstance(n.op, (ast.Add, ast.Sub)) and not isinstance(getattr(n, 'left', None), ast.Constant):
             pts.append(('binsign', i, None))
+        # value-semantics operators: drop a copy / allocate nothing and alias a parameter instead
+        if isinstance(n, ast.Call) and isinstance(n.func, ast.Attribute) and n.func.attr in ('dtype_u', 'dtype_f', 'copy', 'array', 'asarray') and (len(n.args) == 1 and not ast.unparse(n.args[0]).endswith('init') and not n.keywords or (n.func.attr == 'copy' and not n.args)):
+            pts.append(('uncopy', i, None))
+        if isinstance(n, ast.Assign) and len(n.targets) == 1 and isinstance(n.targets[0], ast.Name) and isinstance(n.value, (ast.Call, ast.Attribute)):
+            v = ast.unparse(n.value)
+            if any(k in v for k in ('dtype_u(', 'dtype_f(', 'u_init', 'f_init', 'zeros', 'empty')):
+                for a in fn.args.args[1:4]:
+                    if a.arg not in ('t', 'factor', 'dt', 'self', 'stage', 'level_number'):
+                        pts.append(('aliasparam', i, a.arg))
     return pts
 
 
@@ -139,6 +148,19 @@ def _apply(fn_copy, op, idx, arg):
         n.value = not n.value
     elif op == 'binsign':
         n.op = ast.Sub() if isinstance(n.op, ast.Add) else ast.Add()
+    elif op == 'uncopy':
+        repl = n.args[0] if n.args else n.func.value
+        for p in ast.walk(fn_copy):
+            for fld, val in ast.iter_fields(p):
+                if val is n:
+                    setattr(p, fld, repl)
+                    return True
+                if isinstance(val, list) and n in val:
+                    val[val.index(n)] = repl
+                    return True
+        return False
+    elif op == 'aliasparam':
+        n.value = ast.Name(arg, ast.Load())
     return True
 
 
